@@ -30,6 +30,7 @@ import (
 type domSpec struct {
 	LenDom   map[string][2]int64 // value path (parameter or parameter.field) -> inclusive interval of its length
 	NonNil   map[string]bool     // value paths the domain guarantees non-nil
+	IsNil    map[string]bool     // value paths the domain guarantees nil (no SA keys: the plain mode of the protect entry points)
 	IntDom   map[string][2]int64 // integer parameter -> inclusive interval of its value
 	FieldLen map[string][2]int64 // Struct.Field (by type, whatever the access path) -> interval of its length
 	// FieldLenBase, if set, restricts FieldLen to loads from objects it accepts (the object a datagram was
@@ -42,6 +43,9 @@ type domSpec struct {
 	LookupOK     map[string]string   // callee -> why a nil result is outside the domain
 	EnvErr       map[string]string   // callee (full name, or "method:<name>") -> why its failure is outside the domain or decided elsewhere
 	Rel          func(f *FA) []Fact  // further (relational) facts of the domain, built on the function's own values
+	// Delegated, if set, names a branch condition whose failing side another rule of the same property decides
+	// (the length test of a stream whose round count a shape rule checks)
+	Delegated func(f *FA, cond ssa.Value) (bool, string)
 	// ExactLenField: the domain guarantees len(parameter i) == receiver.<field> (justified by the named rule)
 	ExactLenParam int
 	ExactLenField string
@@ -606,6 +610,9 @@ func (d *domAn) guardRefuted(x *domFn, p *ssa.BasicBlock, succ int) (bool, strin
 		}
 		// non-nil edge
 		if !isErrorType(v.Type()) {
+			if p := valuePath(fn, v); p != "" && spec.IsNil[p] {
+				return true, p + " is nil on the domain"
+			}
 			return false, "the non-nil edge of " + text
 		}
 		ok, why := d.errAlwaysNil(x, v, 0)
@@ -690,6 +697,11 @@ func (d *domAn) guardRefuted(x *domFn, p *ssa.BasicBlock, succ int) (bool, strin
 			return false, "`" + text + "` is not decided by the domain"
 		}
 	}
+	if spec.Delegated != nil {
+		if ok, why := spec.Delegated(f, iff.Cond); ok {
+			return true, why
+		}
+	}
 	// integer comparison
 	var gs []Fact
 	f.condFacts(iff.Cond, succ == 0, &gs)
@@ -699,6 +711,27 @@ func (d *domAn) guardRefuted(x *domFn, p *ssa.BasicBlock, succ int) (bool, strin
 	all := append(append([]Fact{}, facts...), f.FactsAt(p)...)
 	if ok, _ := f.Prove(konst(-1), all); ok {
 		return true, "the test `" + text + "` is itself unreachable on the domain (its dominating guards contradict the domain)"
+	}
+	// an equality edge (L >= 0 and -L >= 0) against a domain fact L != 0
+	if len(gs) == 2 && !gs[0].NE && !gs[1].NE && gs[0].L.key() == gs[1].L.scale(-1).key() && f.ProveNE(gs[0].L, all) {
+		neg := "false"
+		if succ != 0 {
+			neg = "true"
+		}
+		return true, fmt.Sprintf("%s is always %s on the domain", text, neg)
+	}
+	// ... or by a case distinction over the ways into a dominating merge (a length that is one of two sums)
+	for _, g := range gs {
+		if g.NE {
+			continue
+		}
+		if ok, _ := f.ProveCases(g.L.scale(-1).add(konst(1), -1), all, p); ok {
+			neg := "false"
+			if succ != 0 {
+				neg = "true"
+			}
+			return true, fmt.Sprintf("%s is always %s on the domain (in every way the tested value can have come about)", text, neg)
+		}
 	}
 	for _, g := range gs {
 		if factRefuted(f, g, all) {
@@ -1253,6 +1286,52 @@ func (c *Ctx) protectTotality(r *Report, prefix string) {
 	c.domainTotalRule(r, prefix+"total-on-domain",
 		"no failure exit of EncodeEncrypt / encryptMsg / DecodeDecrypt / decryptMsg (and, through their error tests, of verifyIntegrity, calculateIntegrity, encryptPayload, decryptPayload) is reachable for an SA holding all key objects, a message of the encodable domain and, on reception, a genuine protected datagram (SK body = IV | >= 1 cipher block | checksum): each is behind a presence test, a length test refuted by linear arithmetic, a test of a pinned method result, or the failure of a callee that cannot fail on the domain (codec, AES-CBC and random-source failures are decided by C03/C05/C10 and assumed here)",
 		25, specs, []*ssa.Function{ee, enc, dd, dec})
+}
+
+// plainTotality: the same entry points without SA keys are plain encode and decode: no failure exit of
+// EncodeEncrypt / DecodeDecrypt is reachable for a message of the encodable domain (any payload list, the empty
+// one included - a datagram of exactly the 28 header octets) and its genuine encoding, with or without a
+// pre-parsed header.
+func (c *Ctx) plainTotality(r *Report, prefix string) {
+	ee := c.Func("", "EncodeEncrypt")
+	dd := c.Func("", "DecodeDecrypt")
+	codec := map[string]string{
+		"method:Encode":        "messages of the encodable domain encode (decided by the codec properties C03/C05)",
+		"method:Decode":        "the octets are a genuine encoding, which decodes (C03/C05)",
+		"method:DecodePayload": "the octets are a genuine encoding, which decodes (C03/C05)",
+	}
+	// the payload kinds of the plain domain: every supported type but SK
+	var plainTypes []int64
+	for t := int64(33); t <= 48; t++ {
+		if t != 46 {
+			plainTypes = append(plainTypes, t)
+		}
+	}
+	specs := map[*ssa.Function]*domSpec{}
+	if ee != nil {
+		specs[ee] = &domSpec{ExactLenParam: -1, NonNil: map[string]bool{"ikeMsg": true}, IsNil: map[string]bool{"ikesaKey": true}, EnvErr: codec}
+	}
+	if dd != nil {
+		// a genuine plain datagram announces its first payload (never SK) or nothing in the header
+		notSK := func(f *FA) []Fact {
+			var out []Fact
+			for _, b := range f.Fn.Blocks {
+				for _, ins := range b.Instrs {
+					if v, ok := ins.(ssa.Value); ok {
+						if _, fld, isF := fieldLoad(v); isF && fld == "NextPayload" {
+							out = append(out, Fact{L: f.LFOf(v).add(konst(46), -1), NE: true})
+						}
+					}
+				}
+			}
+			return out
+		}
+		specs[dd] = &domSpec{ExactLenParam: -1, NonNil: map[string]bool{"msg": true}, IsNil: map[string]bool{"ikesaKey": true}, EnvErr: codec,
+			LenDom: map[string][2]int64{"msg": {28, INF}}, CallVals: map[string][]int64{"Type": plainTypes}, Rel: notSK}
+	}
+	c.domainTotalRule(r, prefix+"total-on-domain.plain",
+		"with no SA keys supplied, no failure exit of EncodeEncrypt / DecodeDecrypt is reachable for a message of the encodable domain (the empty payload list included: a datagram of exactly 28 octets) and its genuine encoding, with or without a pre-parsed header",
+		2, specs, []*ssa.Function{ee, dd})
 }
 
 // ---- EAP-AKA' AT_MAC (C15) ----
